@@ -1,7 +1,9 @@
 package vproof
 
 import (
+	"encoding/json"
 	"fmt"
+	"os"
 	"math/big"
 	"math/rand/v2"
 	"sort"
@@ -31,6 +33,10 @@ func (rp *reporter) viol(class string, idx int, brief string, w any) {
 	n := rp.seen[class]
 	rp.seen[class] = n + 1
 	rp.mu.Unlock()
+	if d := os.Getenv("VERIF_C10_DUMP"); d != "" && n < 2 {
+		b, _ := json.MarshalIndent(map[string]any{"class": class, "case": idx, "brief": brief, "witness": w}, "", " ")
+		os.WriteFile(fmt.Sprintf("%s/%03d-%d.json", d, idx, n)+"."+fmt.Sprint(len(class)), b, 0o644)
+	}
 	if n >= 3 {
 		return
 	}
